@@ -64,10 +64,10 @@ Definition hstate (q : qn) (m : option str) (ns : option str) (o : option (list 
 Definition oapp (o : option (list attr)) (ah : list attr) : option (list attr) :=
   Some (match o with None => ah | Some acc => acc ++ ah end).
 
-Definition env_closed (q : qn) (m : option str) (ns : option str) (o : option (list attr)) (body : aclass) : aclass :=
+Definition env_closed (q : qn) (m : option str) (ns : option str) (hmn : option nat) (o : option (list attr)) (body : aclass) : aclass :=
   match o with
   | None => AClass q m TagBindingMessage ns [fwd (fst q) m_body None None] [body]
-  | Some h => AClass q m TagBindingMessage ns [fwd (fst q) s_Header_title None None; fwd (fst q) m_body None None]
+  | Some h => AClass q m TagBindingMessage ns [fwd (fst q) s_Header_title None hmn; fwd (fst q) m_body None None]
                      [inner0 (fst q) s_Header_title h []; body]
   end.
 
@@ -101,7 +101,7 @@ Section Steps.
   Lemma step_body q m ns o use bodyns parts ab :
     ext_attrs d style operation ptm bm (SoapBody use bodyns parts) = Some ab ->
     envelope_step d style operation ptm bm (Some (hstate q m ns o)) (SoapBody use bodyns parts)
-    = Some (env_closed q m ns o (inner0 (fst q) m_body ab [])).
+    = Some (env_closed q m ns None o (inner0 (fst q) m_body ab [])).
   Proof.
     intros Ha. unfold envelope_step. rewrite Ha. destruct q as [t n]. destruct o as [acc|]; reflexivity.
   Qed.
@@ -111,7 +111,7 @@ Section Steps.
     Forall2 (fun e ah => ext_attrs d style operation ptm bm e = Some ah) hs ahs ->
     ext_attrs d style operation ptm bm (SoapBody use bodyns parts) = Some ab ->
     fold_left (envelope_step d style operation ptm bm) (hs ++ [SoapBody use bodyns parts]) (Some (hstate q m ns None))
-    = Some (env_closed q m ns (match hs with [] => None | _ => Some (concat ahs) end) (inner0 (fst q) m_body ab [])).
+    = Some (env_closed q m ns None (match hs with [] => None | _ => Some (concat ahs) end) (inner0 (fst q) m_body ab [])).
   Proof.
     intros Hh HF Hb. rewrite fold_left_app, (fold_headers q m ns hs None ahs Hh HF). cbn [fold_left].
     rewrite (step_body _ _ _ _ _ _ _ ab Hb). destruct hs; reflexivity.
@@ -128,8 +128,8 @@ Definition body_out (t : str) (ns : option str) (ab das : list attr) : aclass :=
 
 Lemma envelope_fault_closed d po t n m ns o ab das :
   detail_attrs d (pto_faults po) = Some das ->
-  build_envelope_fault d po (env_closed (t, n) m ns o (inner0 t m_body ab []))
-  = Some (env_closed (t, n) m ns o (body_out t ns ab das)).
+  build_envelope_fault d po (env_closed (t, n) m ns None o (inner0 t m_body ab []))
+  = Some (env_closed (t, n) m ns (Some O) o (body_out t ns ab das)).
 Proof.
   intros Hd. unfold build_envelope_fault. destruct o as [h|]; cbn [env_closed fst c_inner find].
   - replace (inner_named m_body (inner0 t s_Header_title h [])) with false by reflexivity.
